@@ -51,47 +51,10 @@ def violates(kind, line):
     if kind == 'holds': return k == 'PANICKED'
     return k == 'RETURNED'
 
-def run_kani_property(pid, tier, seed, spec):
-    import engine_k
-    t0 = time.time()
-    os.makedirs(OUT, exist_ok=True); os.makedirs(os.path.join(VERIF, 'evidence'), exist_ok=True)
-    rdir = os.path.join(OUT, 'replay'); os.makedirs(rdir, exist_ok=True)
-    known = [k for k in load_known() if k['property'] == pid]
-    sc, recs, wall = engine_k.run(pid, tier, seed, spec['kani_prefixes'], known)
-    viol = [r for r in recs if r['verdict'] == 'violation']; inc = [r for r in recs if r['verdict'] == 'inconclusive']; held = [r for r in recs if r['verdict'] == 'holds']
-    # known findings: violations whose harness is listed as known are reported as such
-    kf_lines = []; new_viol = []
-    for r in viol:
-        k = [k for k in known if k['status'] == 'known' and k['fn'] == r['harness']]
-        if k: kf_lines.append('KNOWN-FINDING: property=%s %s [harness %s, replay %s(%s)]' % (pid, k[0]['what'], r['harness'], r.get('replay_fn'), ', '.join(r.get('replay_args', []))))
-        else: new_viol.append(r)
-    for l in kf_lines: print(l)
-    ev = {'property_id': pid, 'tier': 'quick' if tier != 'thorough' else 'thorough', 'seed': seed, 'level': 'model_checking',
-          'coverage': {'evaluations': len(recs), 'distinct_nontrivial': len([r for r in recs if r['verdict'] in ('holds', 'violation')]),
-                       'rule': 'one evaluation = one Kani proof harness (one file shape: header counts and length concrete, every content byte and the timestamp symbolic) decided by CBMC; non-trivial = verdict reached and, for untruncated shapes, the cover property (lookup reached) satisfied',
-                       'obligations': len(recs), 'discharged': len(held), 'samples': recs[:30],
-                       'bounds': spec.get('bounds', ''), 'outside_claim': spec.get('outside', ''), 'stubs': ['alloc::fmt::format -> empty String (error messages are not the subject)'],
-                       'solver_time_s': round(sum(r.get('secs', 0) or 0 for r in recs), 1), 'known_findings_reported': kf_lines, 'exhaustive': False},
-          'assumptions': ['Kani 0.68 / CBMC 6.11 (cadical) model the compiled code faithfully', 'unwinding bound 48 with unwinding assertions on', 'claims hold for the listed shapes only'],
-          'wall_s': round(time.time() - t0, 2), 'violations': len(new_viol)}
-    json.dump(ev, open(os.path.join(VERIF, 'evidence', pid + '.json'), 'w'), indent=1, default=str)
-    for r in inc: print('INCONCLUSIVE property=%s harness=%s: %s' % (pid, r['harness'], (r.get('reason') or '')[:300]))
-    rc = 0
-    for r in new_viol:
-        path = os.path.join(rdir, '%s_%s.json' % (pid, r['harness']))
-        json.dump({'property': pid, 'fn': r['replay_fn'], 'kind': 'holds', 'profile': 'overflow-checks=on', 'args': r['replay_args'], 'native': r['native_replay'], 'failed_checks': r.get('failed_checks')}, open(path, 'w'), indent=1)
-        print('  counterexample harness %s: %s(%s): %s | %s' % (r['harness'], r['replay_fn'], ', '.join(r['replay_args']), r['native_replay'][:150], (r.get('failed_checks') or [''])[0][:100]))
-        print('VIOLATION property=%s replay=%s' % (pid, path)); rc = 1
-    if rc == 0 and inc: rc = 2
-    print('[%s] tier=%s harnesses=%d held=%d violations=%d known=%d inconclusive=%d wall=%.1fs' % (pid, tier, len(recs), len(held), len(new_viol), len(kf_lines), len(inc), time.time() - t0))
-    return rc
-
 def run_property(pid, tier, seed, only=None):
     global _QDIR
     t0 = time.time()
     spec = checks_def.PROPS[pid]
-    if spec.get('engine') == 'kani':
-        return run_kani_property(pid, tier, seed, spec)
     os.makedirs(OUT, exist_ok=True); os.makedirs(os.path.join(VERIF, 'evidence'), exist_ok=True)
     rdir = os.path.join(OUT, 'replay'); os.makedirs(rdir, exist_ok=True)
     known = [k for k in load_known() if k['property'] == pid]
@@ -122,7 +85,7 @@ def run_property(pid, tier, seed, only=None):
     jobs = []
     for ob in obs:
         # known findings of status "known" are assumed away by class; the witness is re-checked below
-        ob.kf = [k['class'] for k in known if k['fn'] == ob.fn and k['status'] == 'known']
+        ob.kf = [k['class'] for k in known if k.get('fn') == ob.fn and k['status'] == 'known']
         for prof in ob.profiles:
             pts = oblig.gen_points(_PROGS[prof], ob, nval, seed) if (ob.validate and nval) else None
             first = True
@@ -183,7 +146,7 @@ def run_property(pid, tier, seed, only=None):
     # ---- known findings: the stored witness must still fail; classes were assumed away above
     for k in known:
         if k['status'] != 'known': continue
-        spec_ob = [o for o in obs if o.fn == k['fn']]
+        spec_ob = [o for o in obs if o.fn == k.get('fn')]
         if not spec_ob: continue
         kind = spec_ob[0].kind
         fails = []
